@@ -102,6 +102,15 @@ theorem map_initialAuthor_claimsFrom (l : List Nat) (F : Nat → Author) (hnd : 
     not in HEAD whose ghost author is a session, at their working-tree line number -/
 def pendingOf (sp : Spec) : List (Nat × Nat) := claimsFrom 1 sp.st.work (target sp)
 
+/-- what a state whose working log is still empty must satisfy. Either nothing is pending and
+    every line of the working tree is nobody's (the next checkpoint diffs against HEAD), or INITIAL
+    lists exactly the AI lines of the content recorded with it, and whatever the working tree has
+    beyond that content is nobody's (the next checkpoint diffs against the recorded content). -/
+def PendingOK (sp : Spec) : Prop :=
+  (sp.st.initial = [] ∧ ∀ y ∈ sp.st.work, target sp y = none) ∨
+  (sp.st.initial ≠ [] ∧ sp.st.initial = claimsFrom 1 sp.st.initSnap (target sp) ∧ sp.st.initSnap.Nodup ∧
+    (∀ y ∈ sp.st.initSnap, y ∈ sp.seen) ∧ ∀ y ∈ sp.st.work, y ∉ sp.st.initSnap → target sp y = none)
+
 structure Inv2 (sp : Spec) : Prop where
   nodup : sp.st.work.Nodup
   workSeen : ∀ y ∈ sp.st.work, y ∈ sp.seen
@@ -109,13 +118,35 @@ structure Inv2 (sp : Spec) : Prop where
   snapSeen : ∀ e ∈ sp.st.entries, ∀ y ∈ e.snap, y ∈ sp.seen
   latest : match sp.st.entries.getLast? with
     | some e => e.attr = e.snap.map (target sp) ∧ ∀ y ∈ sp.st.work, y ∉ e.snap → target sp y = none
-    | none => sp.st.initial = pendingOf sp
+    | none => PendingOK sp
 
 theorem pendingOf_nil (sp : Spec) (h : pendingOf sp = []) :
     ∀ y ∈ sp.st.work, target sp y = none := by
   intro y hy
   obtain ⟨i, hi⟩ := exists_enumFrom 1 sp.st.work y hy
   unfold pendingOf claimsFrom at h
+  rw [List.filterMap_eq_nil_iff] at h
+  have := h (i, y) hi
+  simpa using this
+
+/-- the pending claims written together with the working tree they describe satisfy `PendingOK` -/
+theorem PendingOK.of_work {sp : Spec} (hi : sp.st.initial = pendingOf sp) (hs : sp.st.initSnap = sp.st.work)
+    (hnd : sp.st.work.Nodup) (hseen : ∀ y ∈ sp.st.work, y ∈ sp.seen) : PendingOK sp := by
+  by_cases he : sp.st.initial = []
+  · left
+    exact ⟨he, pendingOf_nil sp (by rw [← hi]; exact he)⟩
+  · right
+    refine ⟨he, ?_, ?_, ?_, ?_⟩
+    · rw [hs]; exact hi
+    · rw [hs]; exact hnd
+    · rw [hs]; exact hseen
+    · intro y hy hn; rw [hs] at hn; exact absurd hy hn
+
+theorem claimsFrom_nil_target (l : List Nat) (F : Nat → Author) (h : claimsFrom 1 l F = []) :
+    ∀ y ∈ l, F y = none := by
+  intro y hy
+  obtain ⟨i, hi⟩ := exists_enumFrom 1 l y hy
+  unfold claimsFrom at h
   rw [List.filterMap_eq_nil_iff] at h
   have := h (i, y) hi
   simpa using this
@@ -137,19 +168,20 @@ theorem previous_spec2 (sp : Spec) (h : Inv2 sp) :
   | none =>
     rw [he] at hl
     simp only
-    by_cases hemp : sp.st.initial.isEmpty = true
-    · simp only [hemp, if_true]
-      refine ⟨?_, h.headSeen, ?_⟩
-      · apply List.map_congr_left
-        intro y hy
-        simp [target, hy]
-      · intro y hy _
-        have hnil : pendingOf sp = [] := by rw [← hl]; simpa using hemp
-        exact pendingOf_nil sp hnil y hy
-    · simp only [hemp, Bool.false_eq_true, if_false]
-      refine ⟨?_, h.workSeen, fun y hy hn => absurd hy hn⟩
-      rw [hl]
-      exact map_initialAuthor_claimsFrom sp.st.work (target sp) h.nodup
+    rcases hl with ⟨hi, hnone⟩ | ⟨hne, hi, hnd, hseen, hrest⟩
+    · simp only [hi, List.isEmpty_nil, if_true]
+      refine ⟨?_, h.headSeen, fun y hy _ => hnone y hy⟩
+      apply List.map_congr_left
+      intro y hy
+      simp [target, hy]
+    · have hemp : sp.st.initial.isEmpty = false := by
+        cases hx : sp.st.initial with
+        | nil => exact absurd hx hne
+        | cons a as => rfl
+      simp only [hemp, Bool.false_eq_true, if_false]
+      refine ⟨?_, hseen, hrest⟩
+      rw [hi]
+      exact map_initialAuthor_claimsFrom sp.st.initSnap (target sp) hnd
 
 end GitAi.Sys
 
@@ -195,14 +227,10 @@ theorem settled_after_checkpoint (st : State) (who : Author) : Settled (checkpoi
     · right; simpa using h2
   · left; simp
 
-theorem previous_work_irrelevant2 (st : State) (ys : List Nat) (h : Settled st) :
+theorem previous_work_irrelevant2 (st : State) (ys : List Nat) :
     previous { st with work := ys } = previous st := by
   unfold previous
-  rcases h with h | h
-  · cases he : st.entries.getLast? with
-    | none => simp at he; exact absurd he h
-    | some e => simp [he]
-  · simp [h]
+  rfl
 
 /-- a checkpoint by `who` establishes the invariant provided every line that is not in the
     previous snapshot belongs to `who` (generalised to states with pending INITIAL) -/
@@ -211,7 +239,9 @@ theorem checkpoint_gen2 (sp : Spec) (who : Author)
     (headSeen : ∀ y ∈ sp.st.head, y ∈ sp.seen)
     (snapSeen : ∀ e ∈ sp.st.entries, ∀ y ∈ e.snap, y ∈ sp.seen)
     (prevAttr : (previous sp.st).attr = (previous sp.st).snap.map (target sp))
-    (hnew : ∀ y ∈ sp.st.work, y ∉ (previous sp.st).snap → target sp y = who) :
+    (hnew : ∀ y ∈ sp.st.work, y ∉ (previous sp.st).snap → target sp y = who)
+    (hpend : sp.st.entries.getLast? = none → (previous sp.st).snap = sp.st.work → sp.st.initial = [] →
+      PendingOK sp) :
     Inv2 ⟨checkpoint sp.st who, sp.g, sp.seen⟩ := by
   unfold checkpoint
   simp only
@@ -225,6 +255,7 @@ theorem checkpoint_gen2 (sp : Spec) (who : Author)
     show match sp.st.entries.getLast? with
       | some e => _
       | none => _
+    have hsnap0 := hsnap
     unfold previous at prevAttr hsnap
     cases he : sp.st.entries.getLast? with
     | some e =>
@@ -232,20 +263,14 @@ theorem checkpoint_gen2 (sp : Spec) (who : Author)
       simp only at prevAttr hsnap ⊢
       exact ⟨prevAttr, fun y hy hn => absurd (hsnap ▸ hy) hn⟩
     | none =>
-      rw [he] at hsnap
       have hent : sp.st.entries = [] := by simpa using he
       have hiemp : sp.st.initial.isEmpty = true := by
         rcases hset with h | h
         · simp [hent] at h
         · exact h
-      simp only [hiemp, if_true] at hsnap ⊢
       have hi : sp.st.initial = [] := by simpa using hiemp
-      rw [hi]
-      symm
-      apply claimsFrom_eq_nil
-      intro y hy
-      have : y ∈ sp.st.head := hsnap ▸ hy
-      simp [target, this]
+      simp only
+      exact hpend he hsnap0 hi
   · -- a new entry is appended
     have hattr : checkpointAttr (previous sp.st) sp.st.work who = sp.st.work.map (target sp) := by
       unfold checkpointAttr
@@ -269,7 +294,11 @@ theorem checkpoint_gen2 (sp : Spec) (who : Author)
 theorem humanCheckpoint_inv2 (sp : Spec) (h : Inv2 sp) :
     Inv2 ⟨checkpoint sp.st none, sp.g, sp.seen⟩ := by
   obtain ⟨pa, _, pg⟩ := previous_spec2 sp h
-  exact checkpoint_gen2 sp none h.nodup h.workSeen h.headSeen h.snapSeen pa pg
+  refine checkpoint_gen2 sp none h.nodup h.workSeen h.headSeen h.snapSeen pa pg ?_
+  intro he _ _
+  have hl := h.latest
+  rw [he] at hl
+  exact hl
 
 theorem target_credit (sp : Spec) (ys : List Nat) (who : Author) (st' : State)
     (hh : st'.head = sp.st.head) (y : Nat) (h : y ∈ sp.seen) :
@@ -284,10 +313,25 @@ def ValidEditH (sp : Spec) (ys : List Nat) : Prop :=
 theorem ValidEdit.toH {sp : Spec} {ys : List Nat} (h : ValidEdit sp ys) : ValidEditH sp ys :=
   ⟨h.1, fun y hy hs => Or.inl (h.2 y hy hs)⟩
 
-theorem humanEdit_inv2 (sp : Spec) (ys : List Nat) (h : Inv2 sp) (hv : ValidEditH sp ys)
-    (hs : Settled sp.st) : Inv2 (specStep sp (.humanEdit ys)) := by
+theorem humanEdit_inv2 (sp : Spec) (ys : List Nat) (h : Inv2 sp) (hv : ValidEditH sp ys) :
+    Inv2 (specStep sp (.humanEdit ys)) := by
   obtain ⟨hnd, hkeep⟩ := hv
   have hl := h.latest
+  -- a line of the edited file is a current line, a HEAD line or a fresh one; whenever the old
+  -- state says "nobody's" for the first kind, the new state says so for all three
+  have hline : ∀ y ∈ ys, (y ∈ sp.st.work → target sp y = none) →
+      target (specStep sp (.humanEdit ys)) y = none := by
+    intro y hy hw
+    by_cases hsn : y ∈ sp.seen
+    · have ht : target (specStep sp (.humanEdit ys)) y = target sp y :=
+        target_credit sp ys none (step sp.st (.humanEdit ys)) rfl y hsn
+      rw [ht]
+      rcases hkeep y hy hsn with hw' | hh
+      · exact hw hw'
+      · simp [target, hh]
+    · have hnh : y ∉ sp.st.head := fun hh => hsn (h.headSeen y hh)
+      show (if y ∈ sp.st.head then none else credit sp ys none y) = none
+      simp [hnh, credit_fresh sp ys none y hsn hy]
   refine ⟨hnd, ?_, ?_, ?_, ?_⟩
   · intro y hy; simp [specStep, step] at hy ⊢; exact Or.inr hy
   · intro y hy; simp [specStep, step] at hy ⊢; exact Or.inl (h.headSeen y hy)
@@ -310,43 +354,25 @@ theorem humanEdit_inv2 (sp : Spec) (ys : List Nat) (h : Inv2 sp) (hv : ValidEdit
         intro y hy
         exact (target_credit sp ys none _ rfl y (hsnap y hy)).symm
       · intro y hy hn
-        have hy' : y ∈ ys := hy
-        by_cases hsn : y ∈ sp.seen
-        · have ht : target (specStep sp (.humanEdit ys)) y = target sp y :=
-            target_credit sp ys none (step sp.st (.humanEdit ys)) rfl y hsn
-          rw [ht]
-          rcases hkeep y hy' hsn with hw | hh
-          · exact hl.2 y hw hn
-          · simp [target, hh]
-        · have hnh : y ∉ sp.st.head := fun hh => hsn (h.headSeen y hh)
-          show (if y ∈ sp.st.head then none else credit sp ys none y) = none
-          simp [hnh, credit_fresh sp ys none y hsn hy']
+        exact hline y hy (fun hw => hl.2 y hw hn)
     | none =>
       rw [he] at hl
       simp only
-      -- no entry yet: settled means INITIAL is empty, so nothing is pending; stays so after a human edit
-      have hent0 : sp.st.entries = [] := by simpa using he
-      have hi0 : sp.st.initial = [] := by
-        rcases hs with h1 | h1
-        · exact absurd hent0 h1
-        · exact h1
-      have hpend : pendingOf sp = [] := by rw [← hl, hi0]
-      show sp.st.initial = pendingOf (specStep sp (.humanEdit ys))
-      rw [hi0]
-      symm
-      apply claimsFrom_eq_nil
-      intro y hy
-      have hy' : y ∈ ys := hy
-      by_cases hsn : y ∈ sp.seen
-      · have ht : target (specStep sp (.humanEdit ys)) y = target sp y :=
-          target_credit sp ys none (step sp.st (.humanEdit ys)) rfl y hsn
-        rw [ht]
-        rcases hkeep y hy' hsn with hw | hh
-        · exact pendingOf_nil sp hpend y hw
-        · simp [target, hh]
-      · have hnh : y ∉ sp.st.head := fun hh => hsn (h.headSeen y hh)
-        show (if y ∈ sp.st.head then none else credit sp ys none y) = none
-        simp [hnh, credit_fresh sp ys none y hsn hy']
+      rcases hl with ⟨hi, hnone⟩ | ⟨hne, hi, hndS, hseenS, hrest⟩
+      · left
+        exact ⟨hi, fun y hy => hline y hy (fun hw => hnone y hw)⟩
+      · right
+        refine ⟨hne, ?_, hndS, ?_, ?_⟩
+        · show sp.st.initial = claimsFrom 1 sp.st.initSnap (target (specStep sp (.humanEdit ys)))
+          rw [hi]
+          apply claimsFrom_congr
+          intro y hy
+          exact (target_credit sp ys none _ rfl y (hseenS y hy)).symm
+        · intro y hy
+          show y ∈ sp.seen ++ ys
+          exact List.mem_append_left _ (hseenS y hy)
+        · intro y hy hn
+          exact hline y hy (fun hw => hrest y hw hn)
 
 theorem aiEdit_inv2 (sp : Spec) (s : Nat) (ys : List Nat) (h : Inv2 sp) (hv : ValidEdit sp ys) :
     Inv2 (specStep sp (.aiEdit s ys)) := by
@@ -354,9 +380,8 @@ theorem aiEdit_inv2 (sp : Spec) (s : Nat) (ys : List Nat) (h : Inv2 sp) (hv : Va
   have h1 : Inv2 ⟨checkpoint sp.st none, sp.g, sp.seen⟩ := humanCheckpoint_inv2 sp h
   obtain ⟨hw1, hh1, _, _, _⟩ := checkpoint_fields sp.st none
   have hprev : (previous (checkpoint sp.st none)).snap = sp.st.work := previous_snap_after_checkpoint sp.st none
-  have hset : Settled (checkpoint sp.st none) := settled_after_checkpoint sp.st none
   let sp2 : Spec := ⟨{ checkpoint sp.st none with work := ys }, credit sp ys (some s), sp.seen ++ ys⟩
-  have hprev2 : previous sp2.st = previous (checkpoint sp.st none) := previous_work_irrelevant2 _ ys hset
+  have hprev2 : previous sp2.st = previous (checkpoint sp.st none) := previous_work_irrelevant2 _ ys
   obtain ⟨pa, ps, _⟩ := previous_spec2 _ h1
   have hnew : ∀ y ∈ sp2.st.work, y ∉ (previous sp2.st).snap → target sp2 y = some s := by
     intro y hy hn
@@ -369,7 +394,7 @@ theorem aiEdit_inv2 (sp : Spec) (s : Nat) (ys : List Nat) (h : Inv2 sp) (hv : Va
       rw [hh1]; exact hnh
     simp only [target, hnh2, if_false]
     exact credit_fresh sp ys (some s) y hfresh hy'
-  refine checkpoint_gen2 sp2 (some s) hnd ?_ ?_ ?_ ?_ hnew
+  refine checkpoint_gen2 sp2 (some s) hnd ?_ ?_ ?_ ?_ hnew ?_
   · intro y hy; simp [sp2] at hy ⊢; exact Or.inr hy
   · intro y hy; simp [sp2] at hy ⊢; exact Or.inl (h1.headSeen y hy)
   · intro e he y hy
@@ -381,6 +406,36 @@ theorem aiEdit_inv2 (sp : Spec) (s : Nat) (ys : List Nat) (h : Inv2 sp) (hv : Va
     have hseen : y ∈ sp.seen := ps y hy
     show target ⟨checkpoint sp.st none, sp.g, sp.seen⟩ y = target sp2 y
     simp [target, sp2, credit_seen sp ys (some s) y hseen]
+  · -- the agent changed nothing and nothing is pending: every line is a line the previous
+    -- snapshot has, and those are known lines whose target did not change
+    intro _ hsnap hi
+    left
+    refine ⟨hi, ?_⟩
+    intro y hy
+    have hy' : y ∈ ys := hy
+    rw [hprev2, hprev] at hsnap
+    have hw : y ∈ sp.st.work := by
+      have : sp2.st.work = ys := rfl
+      rw [this] at hsnap
+      rw [hsnap]; exact hy'
+    have hseen : y ∈ sp.seen := h.workSeen y hw
+    have ht : target sp2 y = target sp y := by
+      simp [target, sp2, hh1, credit_seen sp ys (some s) y hseen]
+    rw [ht]
+    -- nothing pending after the pre-edit checkpoint, and no entry: the old working tree is HEAD
+    obtain ⟨_, _, pg⟩ := previous_spec2 _ h1
+    have := pg y (by show y ∈ (checkpoint sp.st none).work; rw [hw1]; exact hw)
+    by_cases hin : y ∈ (previous (checkpoint sp.st none)).snap
+    · -- the snapshot is HEAD here (no entry, nothing pending)
+      have hhead : (previous (checkpoint sp.st none)).snap = (checkpoint sp.st none).head := by
+        have he1 : (checkpoint sp.st none).entries.getLast? = none := by assumption
+        have hi1 : (checkpoint sp.st none).initial = [] := hi
+        unfold previous
+        simp [he1, hi1]
+      rw [hhead, hh1] at hin
+      simp [target, hin]
+    · have htt : target ⟨checkpoint sp.st none, sp.g, sp.seen⟩ y = target sp y := by simp [target, hh1]
+      rw [← htt]; exact this hin
 
 end GitAi.Sys
 
@@ -427,15 +482,7 @@ theorem effective_after_checkpoint (sp : Spec) (h : Inv2 sp) :
     simp only [hi, List.isEmpty_nil, if_true] at hprev paC
     rw [hwC]
     have hwh : sp.st.head = sp.st.work := by rw [← hhC]; exact hprev
-    have : ∀ (k : Nat) (l : List Nat), (enumFrom k l).map (fun p => initialAuthor [] p.1)
-        = l.map (fun _ => (none : Author)) := by
-      intro k l
-      induction l generalizing k with
-      | nil => rfl
-      | cons x xs ih =>
-        simp only [enumFrom, List.map_cons, ih (k + 1)]
-        simp [initialAuthor]
-    rw [hi, enum1, this]
+    rw [hi, checkpointAttr_no_claims]
     apply List.map_congr_left
     intro y hy
     have : y ∈ sp.st.head := hwh ▸ hy
@@ -508,20 +555,27 @@ theorem commit_spec (sp : Spec) (h : Inv2 sp) (hok : CommitOK sp) :
       show match (commitStep sp.st).entries.getLast? with
         | some e => e.attr = e.snap.map (target ⟨commitStep sp.st, sp.g, sp.seen⟩) ∧
             ∀ y ∈ (commitStep sp.st).work, y ∉ e.snap → target ⟨commitStep sp.st, sp.g, sp.seen⟩ y = none
-        | none => (commitStep sp.st).initial = pendingOf ⟨commitStep sp.st, sp.g, sp.seen⟩
+        | none => PendingOK ⟨commitStep sp.st, sp.g, sp.seen⟩
       rw [hent]
-      exact hgoal
+      simp only [List.getLast?_nil]
+      have hwk : (commitStep sp.st).work = sp.st.work := by unfold commitStep; simp only; rw [hwC]
+      have hsn : (commitStep sp.st).initSnap = (commitStep sp.st).work := by unfold commitStep; rfl
+      apply PendingOK.of_work hgoal hsn
+      · show (commitStep sp.st).work.Nodup
+        rw [hwk]; exact h.nodup
+      · intro y hy
+        have : y ∈ sp.st.work := hwk ▸ hy
+        exact h.workSeen y this
 
 end GitAi.Sys
 
 namespace GitAi.Sys
 
-/-- validity of an operation in histories with partial commits. A person's edit is only allowed
-    once pending attribution (INITIAL) has been taken over by a checkpoint: the explicit
-    `Settled` hypothesis is exactly the region excluded by the known finding
-    "pending AI lines edited by a person before the next checkpoint". -/
+/-- validity of an operation in histories with partial commits. A person's edit is allowed
+    at any time, also between a partial commit and the next checkpoint: pending attribution
+    (INITIAL) is recorded together with the content it refers to and is carried over through it. -/
 def ValidOp2 (sp : Spec) : Op → Prop
-  | .humanEdit ys => ValidEditH sp ys ∧ Settled sp.st
+  | .humanEdit ys => ValidEditH sp ys
   | .aiEdit _ ys => ValidEdit sp ys
   | .humanCheckpoint => True
   | .stageAll => True
@@ -535,7 +589,7 @@ def ValidOps2 : Spec → List Op → Prop
 theorem specStep_inv2 (sp : Spec) (op : Op) (h : Inv2 sp) (hv : ValidOp2 sp op) :
     Inv2 (specStep sp op) := by
   cases op with
-  | humanEdit ys => exact humanEdit_inv2 sp ys h hv.1 hv.2
+  | humanEdit ys => exact humanEdit_inv2 sp ys h hv
   | aiEdit s ys => exact aiEdit_inv2 sp s ys h hv
   | humanCheckpoint => exact humanCheckpoint_inv2 sp h
   | stageAll => exact ⟨h.nodup, h.workSeen, h.headSeen, h.snapSeen, h.latest⟩
@@ -563,9 +617,9 @@ def cleanSpec (h0 : List Nat) (g0 : Nat → Author) : Spec :=
 
 theorem cleanSpec_inv2 (h0 : List Nat) (g0 : Nat → Author) (hnd : h0.Nodup) : Inv2 (cleanSpec h0 g0) := by
   refine ⟨hnd, fun y hy => hy, fun y hy => hy, by intro e he; simp [cleanSpec] at he, ?_⟩
-  show (cleanSpec h0 g0).st.initial = pendingOf (cleanSpec h0 g0)
-  symm
-  apply claimsFrom_eq_nil
+  show PendingOK (cleanSpec h0 g0)
+  left
+  refine ⟨rfl, ?_⟩
   intro y hy
   have : y ∈ (cleanSpec h0 g0).st.head := hy
   simp [target, this]
